@@ -3,7 +3,7 @@
    periodic / final saves and the policy extraction.  Save events carry a snapshot. *)
 From Coq Require Import QArith Qminmax Qreduction Qabs List Arith ZArith Bool.
 From MdpaxV Require Import Model.ListUtil Model.QFun Model.MDP Model.Bellman Model.Batching Model.Kernel Model.SemiAsync.
-From MdpaxGen Require Import GenThreshold.
+From MdpaxGen Require Import GenThreshold GenPeriodic.
 Import ListNotations.
 Open Scope Q_scope.
 
@@ -73,7 +73,8 @@ Section Solvers.
 
   (* ---------------------------------------------------------------- relative value iteration (g = 1) *)
   Record rvist := { r_vals : list Q; r_iter : nat; r_pol : option (list nat); r_gain : Q }.
-  Definition rvi_init (V0 : list Q) : rvist := {| r_vals := V0; r_iter := 0; r_pol := None; r_gain := 0 |}.
+  (* _initialize_solver_state_elements: self.gain = float(self.values[-1]) *)
+  Definition rvi_init (V0 : list Q) : rvist := {| r_vals := V0; r_iter := 0; r_pol := None; r_gain := last V0 0 |}.
   Definition rvi_incr (st : rvist) : rvist :=
     {| r_vals := r_vals st; r_iter := S (r_iter st); r_pol := r_pol st; r_gain := r_gain st |}.
   Definition rvi_sweep_step (st : rvist) : rvist * bool :=
@@ -97,23 +98,26 @@ Section Solvers.
     | _ :: t, O => x :: t
     | h :: t, S i' => h :: ll_set t i' x
     end.
+  (* buffer length, initial slot/index, index update, the indices and exponent of the two measures
+     and the "not yet a full period" guard all come from the GENERATED file gen/GenPeriodic.v *)
+  Definition zn (x : nat) : Z := Z.of_nat x.
   Definition pvi_init (period : nat) (V0 : list Q) : pvist :=
     {| p_vals := V0; p_iter := 0; p_pol := None;
-       p_hist := Some (ll_set (repeat (repeat 0 (length V0)) (S period)) 0 V0); p_hidx := 0; p_period := period |}.
-  Definition zmodn (a : Z) (m : nat) : nat := Z.to_nat (Z.modulo a (Z.of_nat m)).
+       p_hist := Some (ll_set (repeat (repeat 0 (length V0)) (Z.to_nat (pv_buffer_len (zn period)))) (Z.to_nat pv_initial_slot) V0);
+       p_hidx := Z.to_nat pv_initial_index; p_period := period |}.
   (* _calculate_period_span_with_discount *)
   Definition pvi_discounted_deltas (hist : list (list Q)) (hidx period iteration : nat) : nat -> Q :=
     fun s =>
       fold_left (fun acc p =>
-        let curr := zmodn (Z.of_nat hidx - Z.of_nat p) (S period) in
-        let prev := zmodn (Z.of_nat curr - 1) (S period) in
+        let curr := Z.to_nat (pv_disc_curr_index (zn hidx) (zn p) (zn period)) in
+        let prev := Z.to_nat (pv_disc_prev_index (zn curr) (zn period)) in
         acc + (qnth (nth curr hist []) s - qnth (nth prev hist []) s)
-              / (Qpower g (Z.of_nat iteration - Z.of_nat p - 1)))
+              / (Qpower g (pv_disc_exponent (zn iteration) (zn p))))
         (seq 0 period) 0.
   Definition pvi_measure (new : list Q) (hist : list (list Q)) (hidx period iteration : nat) : option Q :=
-    if (iteration <? period)%nat then None
+    if pv_guard_inf (zn iteration) (zn period) then None
     else if Qeq_bool g 1 then
-      Some (span_diff new (nth (zmodn (Z.of_nat hidx + 1) (S period)) hist []))
+      Some (span_diff new (nth (Z.to_nat (pv_nodisc_prev_index (zn hidx) (zn period))) hist []))
     else
       Some (Qred (fspan (pvi_discounted_deltas hist hidx period iteration) (length new))).
   Definition pvi_incr (st : pvist) : pvist :=
@@ -121,7 +125,7 @@ Section Solvers.
   Definition pvi_sweep_step (st : pvist) : pvist * bool :=
     let it := p_iter st in
     let new := SW (p_vals st) in
-    let hidx := zmodn (Z.of_nat (p_hidx st) + 1) (S (p_period st)) in
+    let hidx := Z.to_nat (pv_next_index (zn (p_hidx st)) (zn (p_period st))) in
     let hist := match p_hist st with Some h => ll_set h hidx new | None => [] end in
     let conv := pvi_measure new hist hidx (p_period st) it in
     ({| p_vals := new; p_iter := it; p_pol := p_pol st; p_hist := Some hist; p_hidx := hidx; p_period := p_period st |},
